@@ -236,6 +236,26 @@ def dictionary_strings():
     return sorted(x for x in out if x)
 
 
+def block_strings(utf8=False):
+    """Every byte value between runs of ordinary characters whose lengths sit around the block sizes of word-at-a-time and SIMD
+    scanners (8, 16, 32, 64): a fast path that classifies a whole block at once must agree with the byte-wise rules."""
+    out = []
+    lens = (0, 1, 7, 8, 9, 15, 16, 17, 31, 32, 33, 63, 64, 65)
+    unit = b"a"
+    for c in range(1, 256):
+        x = bytes([c])
+        for i, p in enumerate(lens):
+            for q in (lens if c < 0x80 and not chr(c).isalnum() else lens[i % 3::3]):
+                out.append(unit * p + x + unit * q)
+    if utf8:
+        e = "\u00e9".encode()
+        for p in lens:
+            for q in lens:
+                for x in (e, b",", b" ", b'"', b".", b"\xc3", b"\xa9"):
+                    out.append(b"a" * p + x + e * (q // 2) + b"a" * (q % 2))
+    return sorted(set(out))
+
+
 HUGE = 1 << 31
 
 
